@@ -714,7 +714,7 @@ func (c *Compiler) compileFromImport(node *ast.FromImport) error {
 	for _, parent := range node.Parents() {
 		c.emit(op.LoadConst, c.constant(parent.String()))
 	}
-	aliases := map[string]string{}
+	aliases := make([]string, 0, len(node.Imports()))
 	for _, im := range node.Imports() {
 		name := im.Path().Value()
 		alias := name
@@ -722,11 +722,11 @@ func (c *Compiler) compileFromImport(node *ast.FromImport) error {
 			alias = im.Alias().String()
 		}
 		c.emit(op.LoadConst, c.constant(name))
-		aliases[name] = alias
+		aliases = append(aliases, alias)
 	}
 	c.emit(op.FromImport, uint16(len(node.Parents())), uint16(len(node.Imports())))
-	for _, im := range node.Imports() {
-		alias := aliases[im.Path().Value()]
+	for i := range node.Imports() {
+		alias := aliases[i]
 		var sym *Symbol
 		var found bool
 		sym, found = c.current.symbols.Get(alias)
